@@ -64,6 +64,12 @@ Proofs/StringsFacts.vos Proofs/StringsFacts.vok Proofs/StringsFacts.required_vos
 Proofs/ServerFacts.vo Proofs/ServerFacts.glob Proofs/ServerFacts.v.beautified Proofs/ServerFacts.required_vo: Proofs/ServerFacts.v Base/Bytes.vo Generated.vo Model/Resp.vo Model/Types.vo Model/Glob.vo Model/Strings.vo Model/Lists.vo Model/ZSets.vo Model/Streams.vo Model/Server.vo Proofs/BytesFacts.vo Proofs/StringsFacts.vo
 Proofs/ServerFacts.vio: Proofs/ServerFacts.v Base/Bytes.vio Generated.vio Model/Resp.vio Model/Types.vio Model/Glob.vio Model/Strings.vio Model/Lists.vio Model/ZSets.vio Model/Streams.vio Model/Server.vio Proofs/BytesFacts.vio Proofs/StringsFacts.vio
 Proofs/ServerFacts.vos Proofs/ServerFacts.vok Proofs/ServerFacts.required_vos: Proofs/ServerFacts.v Base/Bytes.vos Generated.vos Model/Resp.vos Model/Types.vos Model/Glob.vos Model/Strings.vos Model/Lists.vos Model/ZSets.vos Model/Streams.vos Model/Server.vos Proofs/BytesFacts.vos Proofs/StringsFacts.vos
+Proofs/ExpiryFacts.vo Proofs/ExpiryFacts.glob Proofs/ExpiryFacts.v.beautified Proofs/ExpiryFacts.required_vo: Proofs/ExpiryFacts.v Base/Bytes.vo Generated.vo Model/Resp.vo Model/Types.vo Model/Glob.vo Model/Strings.vo Model/Lists.vo Model/ZSets.vo Model/Streams.vo Model/Server.vo Proofs/BytesFacts.vo Proofs/StringsFacts.vo Proofs/ServerFacts.vo
+Proofs/ExpiryFacts.vio: Proofs/ExpiryFacts.v Base/Bytes.vio Generated.vio Model/Resp.vio Model/Types.vio Model/Glob.vio Model/Strings.vio Model/Lists.vio Model/ZSets.vio Model/Streams.vio Model/Server.vio Proofs/BytesFacts.vio Proofs/StringsFacts.vio Proofs/ServerFacts.vio
+Proofs/ExpiryFacts.vos Proofs/ExpiryFacts.vok Proofs/ExpiryFacts.required_vos: Proofs/ExpiryFacts.v Base/Bytes.vos Generated.vos Model/Resp.vos Model/Types.vos Model/Glob.vos Model/Strings.vos Model/Lists.vos Model/ZSets.vos Model/Streams.vos Model/Server.vos Proofs/BytesFacts.vos Proofs/StringsFacts.vos Proofs/ServerFacts.vos
+Proofs/ConnFacts.vo Proofs/ConnFacts.glob Proofs/ConnFacts.v.beautified Proofs/ConnFacts.required_vo: Proofs/ConnFacts.v Base/Bytes.vo Generated.vo Model/Resp.vo Model/Types.vo Model/Server.vo Model/Conn.vo Proofs/BytesFacts.vo Proofs/RespFacts.vo
+Proofs/ConnFacts.vio: Proofs/ConnFacts.v Base/Bytes.vio Generated.vio Model/Resp.vio Model/Types.vio Model/Server.vio Model/Conn.vio Proofs/BytesFacts.vio Proofs/RespFacts.vio
+Proofs/ConnFacts.vos Proofs/ConnFacts.vok Proofs/ConnFacts.required_vos: Proofs/ConnFacts.v Base/Bytes.vos Generated.vos Model/Resp.vos Model/Types.vos Model/Server.vos Model/Conn.vos Proofs/BytesFacts.vos Proofs/RespFacts.vos
 Proofs/PsGlobFacts.vo Proofs/PsGlobFacts.glob Proofs/PsGlobFacts.v.beautified Proofs/PsGlobFacts.required_vo: Proofs/PsGlobFacts.v Base/Bytes.vo Model/Types.vo Model/PubSub.vo Proofs/BytesFacts.vo
 Proofs/PsGlobFacts.vio: Proofs/PsGlobFacts.v Base/Bytes.vio Model/Types.vio Model/PubSub.vio Proofs/BytesFacts.vio
 Proofs/PsGlobFacts.vos Proofs/PsGlobFacts.vok Proofs/PsGlobFacts.required_vos: Proofs/PsGlobFacts.v Base/Bytes.vos Model/Types.vos Model/PubSub.vos Proofs/BytesFacts.vos
@@ -91,6 +97,12 @@ Props/C07.vos Props/C07.vok Props/C07.required_vos: Props/C07.v Base/Bytes.vos G
 Props/C08.vo Props/C08.glob Props/C08.v.beautified Props/C08.required_vo: Props/C08.v Base/Bytes.vo Generated.vo Model/Resp.vo Model/Types.vo Model/Server.vo Proofs/ServerFacts.vo
 Props/C08.vio: Props/C08.v Base/Bytes.vio Generated.vio Model/Resp.vio Model/Types.vio Model/Server.vio Proofs/ServerFacts.vio
 Props/C08.vos Props/C08.vok Props/C08.required_vos: Props/C08.v Base/Bytes.vos Generated.vos Model/Resp.vos Model/Types.vos Model/Server.vos Proofs/ServerFacts.vos
+Props/C02.vo Props/C02.glob Props/C02.v.beautified Props/C02.required_vo: Props/C02.v Base/Bytes.vo Generated.vo Model/Resp.vo Model/Types.vo Model/Strings.vo Model/Server.vo Proofs/StringsFacts.vo Proofs/ServerFacts.vo Proofs/ExpiryFacts.vo
+Props/C02.vio: Props/C02.v Base/Bytes.vio Generated.vio Model/Resp.vio Model/Types.vio Model/Strings.vio Model/Server.vio Proofs/StringsFacts.vio Proofs/ServerFacts.vio Proofs/ExpiryFacts.vio
+Props/C02.vos Props/C02.vok Props/C02.required_vos: Props/C02.v Base/Bytes.vos Generated.vos Model/Resp.vos Model/Types.vos Model/Strings.vos Model/Server.vos Proofs/StringsFacts.vos Proofs/ServerFacts.vos Proofs/ExpiryFacts.vos
+Props/C05.vo Props/C05.glob Props/C05.v.beautified Props/C05.required_vo: Props/C05.v Base/Bytes.vo Generated.vo Model/Resp.vo Model/Types.vo Model/Server.vo Model/Conn.vo Proofs/RespFacts.vo Proofs/ConnFacts.vo
+Props/C05.vio: Props/C05.v Base/Bytes.vio Generated.vio Model/Resp.vio Model/Types.vio Model/Server.vio Model/Conn.vio Proofs/RespFacts.vio Proofs/ConnFacts.vio
+Props/C05.vos Props/C05.vok Props/C05.required_vos: Props/C05.v Base/Bytes.vos Generated.vos Model/Resp.vos Model/Types.vos Model/Server.vos Model/Conn.vos Proofs/RespFacts.vos Proofs/ConnFacts.vos
 Props/C14.vo Props/C14.glob Props/C14.v.beautified Props/C14.required_vo: Props/C14.v Base/Bytes.vo Model/Types.vo Model/PubSub.vo Proofs/PsGlobFacts.vo Proofs/PubSubFacts.vo
 Props/C14.vio: Props/C14.v Base/Bytes.vio Model/Types.vio Model/PubSub.vio Proofs/PsGlobFacts.vio Proofs/PubSubFacts.vio
 Props/C14.vos Props/C14.vok Props/C14.required_vos: Props/C14.v Base/Bytes.vos Model/Types.vos Model/PubSub.vos Proofs/PsGlobFacts.vos Proofs/PubSubFacts.vos
